@@ -1,6 +1,6 @@
 import PPModel.Base.Sexp
 import PPModel.Base.Regex
-namespace PP.Driver
+namespace PP.Driver.RegexD
 open PP PP.Sexp PP.Regex
 
 def optChars : Option (List Char) → Sexp
@@ -44,4 +44,8 @@ def regexHandle : List Sexp → Option Sexp
       | some pr => pure (.str (toString (repr pr)))
   | _ => none
 
+end PP.Driver.RegexD
+
+namespace PP.Driver
+def regexHandle := RegexD.regexHandle
 end PP.Driver
